@@ -273,25 +273,79 @@ def _load_justified():
 
 
 def _len_guard(facts, base_txt, idx_txt, idx_av) -> bool:
-    """A guard exists: a branch fact mentioning len(<seq>) together with the index expression, or - for a constant
-    index - a fact fixing the length / non-emptiness of the sequence."""
+    """A guard exists: a branch fact mentioning len(<seq>) together with the (non-constant) index expression, or - for
+    a constant index k - a fact that implies len(<seq>) > k (k >= 0) resp. len(<seq>) >= -k (k < 0).  The facts are
+    evaluated on their syntax (comparison of len(seq) with a constant in either direction, truthiness of seq,
+    bool(seq), comparison of seq with an empty display), whatever idiom the guard is written in."""
+    need = None
+    if idx_av.has_const() and isinstance(idx_av.const, int) and not isinstance(idx_av.const, bool):
+        need = idx_av.const + 1 if idx_av.const >= 0 else -idx_av.const
     for text, pol, _names in facts:
-        if ("len(%s)" % base_txt) in text:
-            if idx_txt in text:
-                return True
-            if idx_av.has_const() and isinstance(idx_av.const, int):
-                if ("== %d" % (idx_av.const + 1)) in text and pol:
-                    return True
-                if ("<= %d" % idx_av.const) in text and not pol:
-                    return True
-                if ("> %d" % idx_av.const) in text and pol:
-                    return True
-        if idx_av.has_const() and idx_av.const in (0, -1):
-            if text in (base_txt, "bool(%s)" % base_txt) and pol:
-                return True
-            if text == "not " + base_txt and not pol:
-                return True
+        if ("len(%s)" % base_txt) in text and need is None and idx_txt in text:
+            return True
+        if need is None:
+            continue
+        try:
+            e = ast.parse(text, mode="eval").body
+        except SyntaxError:
+            continue
+        lo = _min_len(e, pol, base_txt)
+        if lo is not None and lo >= need:
+            return True
     return False
+
+
+def _is_seq(e, base_txt):
+    return ast.unparse(e) == base_txt
+
+
+def _is_len(e, base_txt):
+    return isinstance(e, ast.Call) and isinstance(e.func, ast.Name) and e.func.id == "len" and len(e.args) == 1 \
+        and _is_seq(e.args[0], base_txt)
+
+
+def _min_len(e, pol, base_txt):
+    """Lower bound on len(seq) implied by `e` evaluating to `pol` (None = nothing implied)."""
+    if isinstance(e, ast.UnaryOp) and isinstance(e.op, ast.Not):
+        return _min_len(e.operand, not pol, base_txt)
+    if isinstance(e, ast.BoolOp):
+        subs = [_min_len(v, pol, base_txt) for v in e.values]
+        conj = isinstance(e.op, ast.And) == pol      # `a and b` true / `a or b` false: every operand has that value
+        if conj:
+            known = [x for x in subs if x is not None]
+            return max(known) if known else None
+        return None if any(x is None for x in subs) else min(subs)
+    if _is_seq(e, base_txt) or _is_len(e, base_txt) or (
+            isinstance(e, ast.Call) and isinstance(e.func, ast.Name) and e.func.id == "bool" and len(e.args) == 1
+            and (_is_seq(e.args[0], base_txt) or _is_len(e.args[0], base_txt))):
+        return 1 if pol else None
+    if isinstance(e, ast.Compare) and len(e.ops) == 1:
+        l, op, r = e.left, e.ops[0], e.comparators[0]
+        empty = lambda x: isinstance(x, (ast.List, ast.Tuple)) and not x.elts   # noqa: E731
+        if (_is_seq(l, base_txt) and empty(r)) or (_is_seq(r, base_txt) and empty(l)):
+            if isinstance(op, ast.NotEq):
+                return 1 if pol else None
+            if isinstance(op, ast.Eq):
+                return None if pol else 1
+            return None
+        flip = {ast.Lt: ast.Gt, ast.Gt: ast.Lt, ast.LtE: ast.GtE, ast.GtE: ast.LtE, ast.Eq: ast.Eq, ast.NotEq: ast.NotEq}
+        if _is_len(r, base_txt) and isinstance(l, ast.Constant):
+            l, r, op = r, l, flip.get(type(op), type(None))()
+        if _is_len(l, base_txt) and isinstance(r, ast.Constant) and isinstance(r.value, int):
+            n = r.value
+            kind = type(op)
+            if not pol:
+                kind = {ast.Lt: ast.GtE, ast.GtE: ast.Lt, ast.Gt: ast.LtE, ast.LtE: ast.Gt, ast.Eq: ast.NotEq,
+                        ast.NotEq: ast.Eq}.get(kind)
+            if kind is ast.Gt:
+                return n + 1
+            if kind is ast.GtE:
+                return n
+            if kind is ast.Eq:
+                return n
+            if kind is ast.NotEq and n == 0:
+                return 1
+    return None
 
 
 def thompson_sequences(summ):
